@@ -15,8 +15,9 @@ from vf.models import insn_corpus as ic
 NSHARDS = 16
 
 
-def shards(tier, seed, scale, per_arch, walk):
+def shards(tier, seed, scale, per_arch, walk, pid):
     """per_arch: seed-dependent candidates per arch/mode; walk: {tier: (rounds, stride)}"""
+    seed = ic.stream_index(pid, tier, seed)
     per = max(5, int(per_arch[tier] * scale / NSHARDS))
     rounds, stride = walk[tier]
     if scale < 1:
@@ -89,6 +90,57 @@ def check_c15(spec, instr, rec):
             else:
                 kind = "enc_other_operands:" + ic.args_diff_sig(instr.args, d.args)
             out.append((kind, "candidate %s decodes to %s %r" % (ic.hexs(enc), d, [repr(a) for a in d.args]), enc))
+    return out
+
+
+def check_imm_boundaries(spec, instr, rec):
+    """Boundary-directed immediates (random bytes reach them with probability 2^-33): every
+    immediate of the decoded instruction is replaced in turn by the values at the encoding
+    boundaries (insn_corpus.boundary_values) and the result given to mn.asm.  The variant is an
+    'instruction obtained by decoding' as soon as one proposed encoding decodes back to exactly
+    it; then every other proposed encoding must too (same oracle as check_c15).  Variants the
+    assembler cannot encode, or that no candidate confirms, are counted, not judged."""
+    from miasm.core.locationdb import LocationDB
+    out = []
+    for idx, size, build in ic.imm_sites(instr):
+        for v in ic.boundary_values(size):
+            try:
+                args = list(instr.args)
+                args[idx] = build(v)
+                if args[idx] == instr.args[idx]:
+                    continue
+                var = spec.mn.instruction(instr.name, instr.mode, args, additional_info=instr.additional_info)
+                var.offset, var.l = 0, instr.l
+            except Exception:
+                rec.count("imm:unbuildable")
+                continue
+            rec.count("imm:variants")
+            st, vals = _asm(spec, var, LocationDB())
+            if st != "ok":
+                rec.count("imm:" + st.split(":")[0].split("@")[0])
+                continue
+            decoded = []
+            for enc in vals:
+                enc = bytes(enc)
+                d, err = ic.decode(spec, enc, 0)
+                decoded.append((enc, d, err))
+            if not any(d is not None and d.l == len(enc) and ic.same_instr(var, d) for enc, d, err in decoded):
+                rec.count("imm:unconfirmed")
+                continue
+            rec.count("imm:confirmed")
+            rec.count("%s:imm_confirmed" % spec.name)
+            for enc, d, err in decoded:
+                if d is None:
+                    out.append(("imm_boundary enc_undecodable", "variant %s: candidate %s does not decode (%s)" % (
+                        var, ic.hexs(enc), err), enc))
+                elif d.l != len(enc):
+                    out.append(("imm_boundary enc_length", "variant %s: candidate %s decodes with length %d" % (
+                        var, ic.hexs(enc), d.l), enc))
+                elif not ic.same_instr(var, d):
+                    sig = "mnemonic->" + ic.base_mnemonic(spec, d) if d.name != var.name else \
+                        ic.args_diff_sig(var.args, d.args)
+                    out.append(("imm_boundary enc_other:" + sig, "variant %s (another candidate decodes back to it): "
+                                "candidate %s decodes to %s" % (var, ic.hexs(enc), d), enc))
     return out
 
 
@@ -165,6 +217,9 @@ def make_key(spec, instr, name, kind, enc=None):
       one template), or the mnemonic when it cannot be determined.  SH4 'no encoding' is keyed by
       operand shape: a dozen table classes decode to the same odd operand form."""
     fam = spec.family
+    if kind.startswith("imm_boundary "):
+        # deterministic part of the corpus: narrow key (codec chain of the class + what differs)
+        return "%s [%s] %s" % (fam, ic.codec_sig(spec, instr) or name, kind)
     if kind.startswith(("asm_raises:", "parsed_asm_raises:")):
         return "%s %s" % (fam, kind)
     if kind.startswith("reprint_differs:"):
@@ -231,6 +286,9 @@ def run(params, rec, which):
             try:
                 with cpulimit.cpu_limit(30):
                     fails = fn(spec, instr, rec)
+                if which == "C15" and origin in ("walk0", "walk1"):
+                    with cpulimit.cpu_limit(60):
+                        fails = list(fails) + check_imm_boundaries(spec, instr, rec)
             except cpulimit.CpuTimeout:
                 rec.count("case_timeout")
                 continue
